@@ -71,6 +71,23 @@ func projectBytes(b []byte, seeds []int) Raw {
 		}
 	}
 	for p := 0; p < len(b); {
+		if b[p] == 0 { // long zero runs (frame bodies, padding areas) as {"z":n}
+			n := 1
+			for p+n < len(b) && b[p+n] == 0 {
+				n++
+			}
+			if n > litMax {
+				flush(p)
+				if !first {
+					sb.WriteByte(',')
+				}
+				first = false
+				sb.WriteString(`{"z":` + itoa(n) + `}`)
+				p += n
+				litStart = p
+				continue
+			}
+		}
 		matched := 0
 		ms := 0
 		if len(b)-p > litMax {
